@@ -157,8 +157,18 @@ def gen_bool(c, d):
     r = c.rng
     opts = ["lit", "cmp", "cmp"]
     if d > 0:
-        opts += ["not", "and", "or", "null", "pred"]
+        opts += ["not", "and", "or", "null", "pred", "constfold"]
     k = r.choice(opts)
+    if k == "constfold":
+        # conditions that the constant evaluator can reduce completely (it leaves a quoted datum behind): both
+        # truth values, through or / and / let / lambda application / quote / arithmetic on literals
+        c.features.add("constant-condition")
+        return r.choice([
+            "(or #false #false)", "(or #false (or #false #false))", "(and #true #false)", "(and #true (or #false #true))",
+            "(let ((z #false)) z)", "(let ((z #true)) (if z #false z))", "((lambda (z) z) #false)", "(quote #false)",
+            "(quote #true)", "(let ((z 1)) (< z 0))", "(not (or #false #true))", "(or (and #true #false) (< 2 1))",
+            "(let ((a #false) (b #false)) (or a b))", "(let ((a #true) (b #false)) (and a b))", "(null? (quote (1)))",
+            "(null? (list))", "(equal? (quote (1 2)) (list 1 2))", "(let ((z (quote ()))) (pair? z))"])
     if k == "lit":
         return r.choice(["#true", "#false"])
     if k == "cmp":
